@@ -11,7 +11,10 @@ pub mod c08;
 pub mod c09;
 pub mod c10;
 pub mod c11;
+pub mod c12;
+pub mod c13;
 pub mod c14;
+pub mod c15;
 pub mod c16;
 pub mod c17;
 pub mod c18;
@@ -19,7 +22,7 @@ pub mod c19;
 pub mod c20;
 pub mod tzchild;
 
-pub const ALL: &[&str] = &["C01", "C02", "C03", "C04", "C05", "C06", "C07", "C08", "C09", "C10", "C11", "C14", "C16", "C17", "C18", "C19", "C20"];
+pub const ALL: &[&str] = &["C01", "C02", "C03", "C04", "C05", "C06", "C07", "C08", "C09", "C10", "C11", "C12", "C13", "C14", "C15", "C16", "C17", "C18", "C19", "C20"];
 
 pub fn run(ctx: &Ctx) -> Option<Outcome> {
     match ctx.prop.as_str() {
@@ -34,7 +37,10 @@ pub fn run(ctx: &Ctx) -> Option<Outcome> {
         "C09" => Some(c09::run(ctx)),
         "C10" => Some(c10::run(ctx)),
         "C11" => Some(c11::run(ctx)),
+        "C12" => Some(c12::run(ctx)),
+        "C13" => Some(c13::run(ctx)),
         "C14" => Some(c14::run(ctx)),
+        "C15" => Some(c15::run(ctx)),
         "C16" => Some(c16::run(ctx)),
         "C17" => Some(c17::run(ctx)),
         "C18" => Some(c18::run(ctx)),
